@@ -181,34 +181,50 @@ fn gating(rep: &mut Report, tier: &Tier) {
             }
         };
         let bytes = block_bytes(&blk);
-        let mut n = match w.node_at(tip, key(9)) {
-            Ok(n) => n,
-            Err(e) => {
-                r.machinery(e);
-                return r;
+        // the same block is offered to a node that holds the chain from genesis and to one that
+        // joined at the tip (its first block is B3: it cannot check inputs, the work rule stands)
+        for joined_mid_chain in [false, true] {
+        let mode = if joined_mid_chain { "/node-joined-at-the-parent" } else { "" };
+        let mut n = if joined_mid_chain {
+            let mut n = LedgerNode::new(key(9), w.cfg.clone());
+            match n.add_block_bytes(&w.blocks[tip].bytes) {
+                Outcome::Done(AddRes::AddedLongest) => n,
+                o => {
+                    r.machinery(format!("a fresh node does not take B3 as its first block: {:?}", o));
+                    return r;
+                }
+            }
+        } else {
+            match w.node_at(tip, key(9)) {
+                Ok(n) => n,
+                Err(e) => {
+                    r.machinery(e);
+                    return r;
+                }
             }
         };
         let res = n.add_block_bytes(&bytes);
         let accepted = matches!(res, Outcome::Done(AddRes::AddedLongest));
-        let ctx = json!({"elapsed": e, "path": format!("{:?}", kind), "needed": needed, "oracle_work": ow, "fee": fee, "tx_valid": tx_ok, "result": format!("{:?}", res)});
+        let ctx = json!({"joined_mid_chain": joined_mid_chain, "elapsed": e, "path": format!("{:?}", kind), "needed": needed, "oracle_work": ow, "fee": fee, "tx_valid": tx_ok, "result": format!("{:?}", res)});
         if let Outcome::Panicked(m) = &res {
-            r.violate(&format!("abort/{:?}", kind), m.clone(), ctx.clone());
+            r.violate(&format!("abort/{:?}{}", kind, mode), m.clone(), ctx.clone());
             return r;
         }
-        r.distinct.insert(format!("{}:{:?}:{}", e, kind, delta));
+        r.distinct.insert(format!("{}:{:?}:{}{}", e, kind, delta, mode));
         let expect_accept = tx_ok && ow >= needed;
         // +-1 nolan around the float rounding of the requirement is a don't-care
         let band = (ow as i128 - needed as i128).abs() <= 1 && needed > 0;
         if accepted && !tx_ok {
-            r.violate(&format!("block-with-invalid-path-accepted/{:?}", kind), format!("{}", ctx), ctx.clone());
+            r.violate(&format!("block-with-invalid-path-accepted/{:?}{}", kind, mode), format!("{}", ctx), ctx.clone());
         } else if accepted != expect_accept && !band {
-            r.violate(&format!("{}/{:?}", if accepted { "accepted-without-enough-work" } else { "refused-despite-enough-work" }, kind), format!("{}", ctx), ctx.clone());
+            r.violate(&format!("{}/{:?}{}", if accepted { "accepted-without-enough-work" } else { "refused-despite-enough-work" }, kind, mode), format!("{}", ctx), ctx.clone());
         }
-        r.outcome(&format!("{}:{}", if accepted { "accepted" } else { "rejected" }, if needed == 0 { "no-work-needed" } else if ow >= needed { "enough" } else { "short" }));
-        if i == 3 {
+        r.outcome(&format!("{}:{}{}", if accepted { "accepted" } else { "rejected" }, if needed == 0 { "no-work-needed" } else if ow >= needed { "enough" } else { "short" }, mode));
+        if i == 3 && !joined_mid_chain {
             r.sample(ctx);
         }
         r.traces_validated += 1;
+        }
         r
     });
     for r in results {
